@@ -401,3 +401,31 @@ def command_path(ctx):
             ctx.prog.need(r)
         return ctx.cg.reach(roots)
     return ctx.memo("command_path", compute)
+
+
+def closure_desc(ctx, cl):
+    """stable description of a closure by what it does (not by its ordinal): the first crate-local
+    function it calls, else the first field it writes"""
+    b = ctx.prog.bodies.get(cl)
+    if b is None:
+        return "closure"
+    for i, t in b.calls():
+        c = callee(t)
+        if c in ctx.prog.bodies and not c.startswith(("std::", "core::", "alloc::", "<")):
+            return "closure->" + c.split("::")[-1]
+    for bb in b.bbs:
+        for st in bb["s"]:
+            if st["k"] == "=":
+                fs = [e["f"] for e in st["l"]["p"] if isinstance(e, dict) and "f" in e and "::" in e["f"]]
+                if fs:
+                    return "closure-writes-" + fs[-1].rsplit(".", 1)[-1]
+    return "closure"
+
+
+def site_name(ctx, t):
+    """stable short name of a call site: callee, or with_connection:<closure description>"""
+    cal = callee(t)
+    short = cal.split("::")[-1]
+    if t["clos"] and short in ("with_connection",):
+        return "with_connection:" + closure_desc(ctx, t["clos"][0])
+    return short
